@@ -62,9 +62,11 @@ RangeLines(b) == {i \in Lines(b) : b.kv[i].kind = "range"}
 SwapFaults(b) == UNION { {[op |-> "swap", a |-> i, b |-> j] : j \in RangeLines(b) \cap {i + 1, i + 2}} : i \in RangeLines(b) }
 CutPoints(b) == ({0} \cup UNION { {c - 1, c, c + 1} : c \in {b.cuts[i] : i \in 1..Len(b.cuts)} }) \cap 0..(b.total - 1)
 CutFaults(b) == {[op |-> "cut", at |-> c] : c \in CutPoints(b)}
-FlipChars == <<"{", "}", "\"", " ", "\n", "Z", "9", "-", "*", "[">>
+\* "x80" / "xFF" are not characters: the harness sets the high bit of the byte / writes 0xFF (bytes that are not UTF-8)
+FlipChars == <<"{", "}", "\"", " ", "\n", "Z", "9", "-", "*", "[", "x80", "xFF">>
 \* grid of G positions inside every text range plus its two ends
-FlipPoints(b, G) == UNION { {b.texts[t].lo, b.texts[t].hi} \cup
+\* ... and the fourth and sixth byte of the range (inside the first question name of a tree section: "QS name {..}")
+FlipPoints(b, G) == UNION { {b.texts[t].lo, b.texts[t].hi} \cup ({b.texts[t].lo + 3, b.texts[t].lo + 5} \cap b.texts[t].lo..b.texts[t].hi) \cup
                             { b.texts[t].lo + (g * (b.texts[t].hi - b.texts[t].lo)) \div (G + 1) : g \in 1..G } : t \in 1..Len(b.texts) }
 FlipFaults(b, G) == {[op |-> "flip", at |-> p, ch |-> FlipChars[c]] : p \in FlipPoints(b, G), c \in 1..Len(FlipChars)}
 U32Idx(b) == {i \in 1..Len(b.toks) : b.toks[i].t = "u32"}
